@@ -335,8 +335,10 @@ class Gen:
             if enums:
                 return rng.choice(enums)
         if r < 0.85:
-            recs = [t for t in self.pkg.named if t.kind == "rec" and all(
-                f.kind == "prim" and f.p not in ("string",) for _, f in t.fields)]
+            def plain(f):
+                return ((f.kind == "prim" and f.p not in ("string",)) or f.kind == "enum" or
+                        (f.kind in ("fixvec", "fixarr") and f.e.kind == "prim" and f.e.p not in ("string", "date", "time", "datetime")))
+            recs = [t for t in self.pkg.named if t.kind == "rec" and all(plain(f) for _, f in t.fields)]
             if recs:
                 return rng.choice(recs)
         return prim(rng.choice(["int32", "float32", "uint8", "complexfloat32", "float64"]))
